@@ -345,3 +345,27 @@ theorem concatenate_spec (a b : List α) : concatenate a b = a ++ b := by
 
 end Seq
 end CM
+
+namespace CM
+namespace Seq
+open SeqSpec
+variable {α : Type}
+
+theorem removeValue_some [Inhabited α] (l : List α) (i : Int) (p : Nat) (hp : pos l.length i = some p) :
+    removeValue l i = .ok (l.getD p default, l.eraseIdx p) := by
+  unfold removeValue getValue
+  rw [toZeroBased_some _ _ _ hp, toNormalized_some _ _ _ hp]
+  simp only [removeLoop_spec]
+
+theorem removeValue_none [Inhabited α] (l : List α) (i : Int) (hp : pos l.length i = none) :
+    ∃ c, removeValue l i = .error c := by
+  obtain ⟨c, hc⟩ := toZeroBased_none _ _ hp
+  exact ⟨c, by simp [removeValue, getValue, hc]⟩
+
+theorem pos_one (n : Nat) (h : 0 < n) : pos n 1 = some 0 := by
+  unfold pos
+  have : (1 : Int) ≤ 1 ∧ (1 : Int) ≤ (n : Int) := by omega
+  simp [this]
+
+end Seq
+end CM
